@@ -40,6 +40,17 @@ def obligation(pid, name, **kw):
     return deco
 
 
+def share(src_pid, dst_pid, prefix, select=lambda name: True):
+    """register obligations of another property under `dst_pid` as well (a clause stated by both properties)"""
+    have = set(o.name for o in REGISTRY.get(dst_pid, []))
+    for o in list(REGISTRY.get(src_pid, [])):
+        name = '%s.%s' % (prefix, o.name)
+        if select(o.name) and name not in have:
+            REGISTRY.setdefault(dst_pid, []).append(Obligation(dst_pid, name, o.fn, tier=o.tier, entries=o.entries, statement=o.statement, bounds=o.bounds,
+                                                               abstractions=o.abstractions, covers=o.covers, opts=o.opts, expect=o.expect, kind=o.kind,
+                                                               finding=o.finding, replay=o.replay))
+
+
 def storage(ckey):
     return Opaque('storage', ckey)
 
